@@ -14,7 +14,8 @@
                       want |-> [name |-> requested value] (for the keys),
                       outcome |-> "ok"|"raised", exc |-> "" or the exception class,
                       vals |-> [name |-> value] after the call,
-                      notes |-> << [l |-> listener id, upd |-> <<names it was told>>, vals |-> what it then read] >>]
+                      notes |-> << [l |-> listener id, upd |-> <<names it was told>>, vals |-> what it then read] >>,
+                      nested |-> << [name, val] >>]   \* updates a listener made (and saw accepted) from inside its callback
      [k |-> "saveload", mode |-> "fresh"|"inplace"|"late", outcome, exc, vals |-> current values,
                       loaded |-> values of fresh options after save + load, scls |-> <<class of pool string k>>]
    The option set only grows ("addopt"); `vals` of an event lists the options existing after it.          *)
@@ -46,24 +47,36 @@ SameOn(a, b, names) == \A n \in names : n \in DOMAIN a /\ n \in DOMAIN b /\ a[n]
 \* options that existed before the call are all where they were (options the call itself added are not constrained)
 Restored(m, vals) == DOMAIN m.prev \subseteq DOMAIN vals /\ SameOn(m.prev, vals, DOMAIN m.prev)
 
+SubsOf(m, l) == ToSet(m.listeners[CHOOSE i \in 1..Len(m.listeners) : m.listeners[i].id = l].subs)
+AgreeOn(a, b, names) == \A n \in names \cap DOMAIN b : n \in DOMAIN a /\ a[n] = b[n]
 UpdateClause(m, ev) ==
   LET keys == ToSet(ev.keys)
       heard == { ev.notes[i].l : i \in 1..Len(ev.notes) }
+      nested == Get(ev, "nested", <<>>)
+      nnames == { nested[i].name : i \in 1..Len(nested) }
+      \* value an assigned option must end with: the last nested assignment of it, else what the call asked for
+      Eff(n) == IF n \in nnames
+                THEN nested[CHOOSE i \in 1..Len(nested) : nested[i].name = n /\ \A j \in (i + 1)..Len(nested) : nested[j].name # n].val
+                ELSE ev.want[n]
+      assigned == keys \cup nnames
   IN IF ev.outcome = "raised" THEN
+       \* every option: also those a listener assigned on the way (nested updates are part of the rejected call)
        IF ~Restored(m, ev.vals) THEN <<"C44.rejected_not_restored", ev.exc, ev.via>>
        ELSE IF \E l \in heard : ~Restored(m, Last(NotesOf(ev, l)).vals)
             THEN <<"C44.listener_not_restored", ev.exc, ev.via>>
        ELSE <<>>
      ELSE
-       IF \/ \E n \in keys : n \notin DOMAIN ev.vals \/ ev.vals[n] # ev.want[n]
-          \/ ~SameOn(m.prev, ev.vals, DOMAIN m.prev \ keys)
+       IF \/ \E n \in assigned : n \notin DOMAIN ev.vals \/ ev.vals[n] # Eff(n)
+          \/ ~SameOn(m.prev, ev.vals, DOMAIN m.prev \ assigned)
        THEN <<"C44.accepted_not_assigned", ev.via>>
        ELSE IF keys = {} THEN <<>>
-       ELSE IF \E i \in Concerned(m, keys) : NotesOf(ev, m.listeners[i].id) = <<>>
+       ELSE IF \E i \in Concerned(m, keys) :
+                 ~\E j \in 1..Len(ev.notes) : ev.notes[j].l = m.listeners[i].id /\ ToSet(ev.notes[j].upd) = keys
             THEN <<"C44.notify_mismatch", ev.via, "missing">>
        ELSE IF \E i \in 1..Len(ev.notes) : ToSet(ev.notes[i].upd) # keys
+                                            /\ ~\E n \in nnames : ToSet(ev.notes[i].upd) = {n}
             THEN <<"C44.notify_mismatch", ev.via, "names">>
-       ELSE IF \E l \in heard : Last(NotesOf(ev, l)).vals # ev.vals
+       ELSE IF \E l \in heard : ~AgreeOn(Last(NotesOf(ev, l)).vals, ev.vals, IF nnames = {} THEN DOMAIN ev.vals ELSE SubsOf(m, l))
             THEN <<"C44.notify_mismatch", ev.via, "stale_values">>
        ELSE <<>>
 
@@ -95,12 +108,14 @@ UpdWit(m, ev) ==
        \cup (IF ev.via = "process_deferred" /\ Len(ev.keys) > 0 THEN {"process_deferred"} ELSE {})
        \cup (IF ev.via = "reset" THEN {"reset"} ELSE {})
        \cup (IF ev.via = "addopt" THEN {"addopt"} ELSE {})
+       \cup (IF Get(ev, "nested", <<>>) # <<>> THEN {"nested_accepted"} ELSE {})
   ELSE (IF ev.exc = "TypeError" THEN {"rejected_type"} ELSE {})
        \cup (IF ev.exc = "OptionsError" /\ ev.notes # <<>> THEN {"rejected_listener"} ELSE {})
        \cup (IF ev.exc = "OptionsError" /\ ev.notes = <<>> THEN {"rejected_parse"} ELSE {})
        \cup (IF ev.exc = "OptionsError" /\ \E i \in 1..Len(ev.notes) : ~Restored(m, ev.notes[i].vals)
              THEN {"listener_saw_rejected_value"} ELSE {})
        \cup (IF Len(ev.keys) > 1 THEN {"rejected_multi"} ELSE {})
+       \cup (IF ev.exc = "OptionsError" /\ Get(ev, "nested", <<>>) # <<>> THEN {"nested_then_rejected"} ELSE {})
 SlWit(m, ev) ==
   {"roundtrip"} \cup (IF \E n \in NonDefault(m, ev) : ev.vals[n][1] \in {"s", "q"} /\ Len(ev.vals[n]) >= 2
                       THEN {"roundtrip_strings"} ELSE {})
